@@ -166,13 +166,35 @@ Proof. apply str_eqb_eq. reflexivity. Qed.
 Lemma str_eqb_neq a b : a <> b -> str_eqb a b = false.
 Proof. intros H. destruct (str_eqb a b) eqn:E; [apply str_eqb_eq in E; contradiction | reflexivity]. Qed.
 
-Lemma key_of_annot_line name a : ~ In SP name -> split_sp (annot_line name a) = (name, Some (a ++ [LF])).
+(* escaping: no line break survives, and unescape inverts it — for EVERY text *)
+Lemma escape_no_nl a : no_lf (escape a) /\ no_cr (escape a).
+Proof.
+  induction a as [|c a [IH1 IH2]]; [split; intros []|]. cbn [escape flat_map]. fold (escape a). unfold esc1.
+  destruct (N.eqb c BS) eqn:E1; [split; intros [X|[X|X]]; try discriminate; auto|].
+  destruct (N.eqb c LF) eqn:E2; [split; intros [X|[X|X]]; try discriminate; auto|].
+  destruct (N.eqb c CR) eqn:E3; [split; intros [X|[X|X]]; try discriminate; auto|].
+  split; intros [X|X]; auto; subst c; [rewrite N.eqb_refl in E2 | rewrite N.eqb_refl in E3]; discriminate.
+Qed.
+
+Lemma unescape_escape a : unescape (escape a) = a.
+Proof.
+  induction a as [|c a IH]; [reflexivity|]. cbn [escape flat_map]. fold (escape a). unfold esc1.
+  destruct (N.eqb c BS) eqn:E1.
+  { apply N.eqb_eq in E1. subst c. cbn. rewrite IH. reflexivity. }
+  destruct (N.eqb c LF) eqn:E2.
+  { apply N.eqb_eq in E2. subst c. cbn. rewrite IH. reflexivity. }
+  destruct (N.eqb c CR) eqn:E3.
+  { apply N.eqb_eq in E3. subst c. cbn. rewrite IH. reflexivity. }
+  cbn [app unescape]. rewrite E1, IH. reflexivity.
+Qed.
+
+Lemma key_of_annot_line name a : ~ In SP name -> split_sp (annot_line name a) = (name, Some (escape a ++ [LF])).
 Proof. intros H. unfold annot_line. cbn [app]. apply split_sp_line. exact H. Qed.
 
 Lemma annot_find_hit name a tl : ~ In SP name -> annot_find (annot_line name a :: tl) name = AFound a.
 Proof.
   intros H. cbn [annot_find]. rewrite key_of_annot_line by exact H. rewrite str_eqb_refl.
-  rewrite removelast_last. reflexivity.
+  rewrite removelast_last, unescape_escape. reflexivity.
 Qed.
 
 Lemma annot_find_skip l tl n : str_eqb (key_of l) n = false -> annot_find (l :: tl) n = annot_find tl n.
@@ -216,17 +238,17 @@ Proof.
   - cbn [annot_find]. destruct (split_sp l) as [a0 r]. destruct (str_eqb a0 n); [reflexivity | exact IH].
 Qed.
 
-Lemma term_line_annot name a : no_lf name -> ~ In SP name -> no_lf a -> term_line (annot_line name a).
+Lemma term_line_annot name a : no_lf name -> ~ In SP name -> term_line (annot_line name a).
 Proof.
-  intros H1 H2 H3. exists (name ++ [SP] ++ a). split.
+  intros H1 H2. pose proof (proj1 (escape_no_nl a)) as H3. exists (name ++ [SP] ++ escape a). split.
   - unfold annot_line. rewrite <- !app_assoc. reflexivity.
   - intros Hin. apply in_app_or in Hin. destruct Hin as [X|X]; [exact (H1 X)|].
     cbn in X. destruct X as [X|X]; [discriminate | exact (H3 X)].
 Qed.
 
-Lemma no_cr_annot name a : no_cr name -> no_cr a -> no_cr (annot_line name a).
+Lemma no_cr_annot name a : no_cr name -> no_cr (annot_line name a).
 Proof.
-  intros H1 H2 Hin. unfold annot_line in Hin. apply in_app_or in Hin. destruct Hin as [X|X]; [exact (H1 X)|].
+  intros H1 Hin. pose proof (proj2 (escape_no_nl a)) as H2. unfold annot_line in Hin. apply in_app_or in Hin. destruct Hin as [X|X]; [exact (H1 X)|].
   cbn in X. destruct X as [X|X]; [discriminate|]. apply in_app_or in X.
   destruct X as [X|[X|[]]]; [exact (H2 X) | discriminate].
 Qed.
@@ -251,30 +273,30 @@ Proof.
 Qed.
 
 Lemma new_lines_wf file name a :
-  ends_nlb (translate file) = true -> no_nl a = true -> name_ok name = true ->
+  ends_nlb (translate file) = true -> name_ok name = true ->
   Forall term_line (new_lines file name a) /\ Forall (fun l => no_cr l) (new_lines file name a).
 Proof.
-  intros He Ha Hn. destruct (no_nl_spec a Ha) as [Ha1 Ha2]. destruct (name_ok_spec name Hn) as [Hn1 [Hn2 Hn3]].
-  pose proof (term_line_annot name a Hn1 Hn3 Ha1) as Ht. pose proof (no_cr_annot name a Hn2 Ha2) as Hc.
+  intros He Hn. destruct (name_ok_spec name Hn) as [Hn1 [Hn2 Hn3]].
+  pose proof (term_line_annot name a Hn1 Hn3) as Ht. pose proof (no_cr_annot name a Hn2) as Hc.
   pose proof (split_lines_term _ He) as HL. pose proof (lines_no_cr _ (translate_no_cr file)) as HC.
   unfold new_lines. destruct (existsb _ _); split;
     repeat first [apply Forall_app; split | apply Forall_map_repl | constructor]; assumption.
 Qed.
 
 Lemma reread_new_lines file name a :
-  ends_nlb (translate file) = true -> no_nl a = true -> name_ok name = true ->
+  ends_nlb (translate file) = true -> name_ok name = true ->
   split_lines (translate (annot_store file name a)) = new_lines file name a.
 Proof.
-  intros He Ha Hn. destruct (new_lines_wf file name a He Ha Hn) as [H1 H2].
+  intros He Hn. destruct (new_lines_wf file name a He Hn) as [H1 H2].
   rewrite annot_store_lines, translate_id by (apply no_cr_concat; exact H2).
   apply split_lines_concat. exact H1.
 Qed.
 
 Lemma annotation_roundtrip_lemma file name a :
-  ends_nlb (translate file) = true -> no_nl a = true -> name_ok name = true ->
+  ends_nlb (translate file) = true -> name_ok name = true ->
   annot_retrieve (annot_store file name a) name = AFound a.
 Proof.
-  intros He Ha Hn. unfold annot_retrieve. rewrite reread_new_lines by assumption.
+  intros He Hn. unfold annot_retrieve. rewrite reread_new_lines by assumption.
   destruct (name_ok_spec name Hn) as [_ [_ Hsp]]. unfold new_lines.
   destruct (existsb _ _) eqn:E.
   - apply annot_find_replaced; assumption.
@@ -283,19 +305,19 @@ Proof.
 Qed.
 
 Lemma annotation_wf_preserved_lemma file name a :
-  ends_nlb (translate file) = true -> no_nl a = true -> name_ok name = true ->
+  ends_nlb (translate file) = true -> name_ok name = true ->
   ends_nlb (translate (annot_store file name a)) = true.
 Proof.
-  intros He Ha Hn. destruct (new_lines_wf file name a He Ha Hn) as [H1 H2].
+  intros He Hn. destruct (new_lines_wf file name a He Hn) as [H1 H2].
   rewrite annot_store_lines, translate_id by (apply no_cr_concat; exact H2).
   apply ends_nlb_concat. exact H1.
 Qed.
 
 Lemma annotation_others_lemma file name a n :
-  ends_nlb (translate file) = true -> no_nl a = true -> name_ok name = true -> n <> name ->
+  ends_nlb (translate file) = true -> name_ok name = true -> n <> name ->
   annot_retrieve (annot_store file name a) n = annot_retrieve file n.
 Proof.
-  intros He Ha Hn Hne. unfold annot_retrieve. rewrite reread_new_lines by assumption.
+  intros He Hn Hne. unfold annot_retrieve. rewrite reread_new_lines by assumption.
   destruct (name_ok_spec name Hn) as [_ [_ Hsp]]. unfold new_lines.
   destruct (existsb _ _) eqn:E.
   - apply annot_find_other; assumption.
@@ -438,27 +460,8 @@ Proof.
   replace (list_eqb str_eqb header_row header_row) with true by reflexivity. cbn [negb].
   assert (H4 : existsb (fun r => Nat.ltb 4 (length r)) (map row_fields rows) = false).
   { clear. induction rows as [|[[[p d] s] m] rows IH]; [reflexivity|]. cbn. exact IH. }
-  rewrite H4. unfold log_guard in Hg. apply andb_true_iff in Hg. destruct Hg as [Hall Htext].
-  assert (Hcells : map (fun r => match nth_field r 3 with Some s => Some (cstr s) | None => None end)
-                       (map row_fields rows) = map (fun r => Some (msg_of r)) rows).
-  { clear Htext Hp H4. induction rows as [|[[[p d] s] m] rows IH]; [reflexivity|].
-    cbn [map forallb] in *. apply andb_true_iff in Hall. destruct Hall as [Hm Hall].
-    apply andb_true_iff in Hm. destruct Hm as [_ Hm]. rewrite IH by exact Hall.
-    cbn. rewrite cstr_id by exact Hm. reflexivity. }
-  rewrite Hcells.
-  assert (Hmap : map (fun c : option str => match c with Some s => if is_na s then CNaN else CStr s | None => CNaN end)
-                     (map (fun r => Some (msg_of r)) rows) = map (fun r => CStr (msg_of r)) rows).
-  { clear Htext Hp H4 Hcells. induction rows as [|r rows IH]; [reflexivity|].
-    cbn [map forallb] in *. apply andb_true_iff in Hall. destruct Hall as [Hm Hall].
-    apply andb_true_iff in Hm. destruct Hm as [Hna _]. apply negb_true_iff in Hna.
-    rewrite Hna, IH by exact Hall. reflexivity. }
-  destruct rows as [|r0 rows']; [reflexivity|].
-  assert (Hex : existsb (fun c : option str => match c with Some s => is_text s | None => false end)
-                        (map (fun r => Some (msg_of r)) (r0 :: rows')) = true).
-  { change (existsb is_text (map msg_of (r0 :: rows')) = true) in Htext.
-    revert Htext. generalize (r0 :: rows'). intros l.
-    induction l as [|r l IH]; cbn; [congruence|]. intros H. apply orb_true_iff in H.
-    destruct H as [H|H]; [rewrite H; reflexivity | rewrite IH by exact H; apply orb_true_r]. }
-  rewrite Hex, Hmap. reflexivity.
+  rewrite H4. f_equal. unfold log_guard in Hg. clear Hp H4.
+  induction rows as [|[[[p d] s] m] rows IH]; [reflexivity|].
+  cbn [map forallb msg_of] in *. apply andb_true_iff in Hg. destruct Hg as [Hm Hg].
+  rewrite IH by exact Hg. cbn. rewrite cstr_id by exact Hm. reflexivity.
 Qed.
-
